@@ -122,6 +122,14 @@ theorem knn_walk_exists (cmp : Float → Float → Option Cmp) (hc : ∀ v e, (c
       ∀ x ∈ idxs, x < a.size :=
   walk_some hc a e k hk h0
 
+/-- `knn_walk_window` applies to every call made by `estimate_bias`: each of the 15 raw rows has at
+least `K = 6` entries (and the bias row has the same length), so `k = K` satisfies `0 < k ≤ len`. -/
+theorem rows_allow_walk (p : Nat) (hp : p < 15) :
+    ∃ lookup bias, rawF[p]? = some lookup ∧ biasF[p]? = some bias ∧ lookup.size = bias.size ∧
+      hllK ≤ lookup.size ∧ 0 < hllK := by
+  obtain ⟨lookup, bias, h1, h2, h3, h4⟩ := rows_exist hp
+  exact ⟨lookup, bias, h1, h2, h3, h4, by decide⟩
+
 /-- The walk in general position: from in-range cursors with `k` positions remaining, `k` steps
 return exactly the `j` positions below the left cursor and the `k − j` positions from the right
 cursor on, for some `j`. -/
